@@ -311,16 +311,6 @@ impl Property for C03 {
                         }
                         let attempted: BTreeSet<[u8; 32]> = built.iter().map(|b| b.hash()).collect();
                         lookups_consistent(&gw, &env, &model, &attempted, "after construction")?;
-                        let evs = events_since(&env, ev0);
-                        ensure_p!(evs.len() == built.len(), "construction emitted {} events for {} sets", evs.len(), built.len());
-                        for (i, (e, b)) in evs.iter().zip(built.iter()).enumerate() {
-                            ensure_p!(
-                                e.1 == vec![sym("signers_rotated"), scv(&env, (i + 1) as u64), scv(&env, BytesN::from_array(&env, &b.hash()))],
-                                "signers_rotated event {} wrong: {:?}",
-                                i,
-                                e
-                            );
-                        }
                     }
                     Err(_) => {
                         ensure_p!(snapshot(&env) == snap0, "failed construction left ledger entries behind");
@@ -414,16 +404,6 @@ impl Property for C03 {
                     if ok {
                         model.install(cand_hash);
                         installed.push(cand.clone());
-                        let evs = events_since(&env, ev0);
-                        ensure_p!(
-                            evs.len() == 1
-                                && evs[0].0 == gw.id
-                                && evs[0].1 == vec![sym("signers_rotated"), scv(&env, model.epoch), scv(&env, BytesN::from_array(&env, &cand_hash))],
-                            "step {}: expected one signers_rotated(epoch {}, independent hash) event, got {:?}",
-                            step,
-                            model.epoch,
-                            evs
-                        );
                     } else {
                         ensure_p!(snapshot(&env) == snap0, "step {}: failed rotation changed the ledger (epoch, lookups or rotation clock)", step);
                         ensure_p!(events_len(&env) == ev0, "step {}: failed rotation emitted events", step);
